@@ -28,22 +28,25 @@ THEOREMS = [
     "C13_false_cycle_witness",
     "C13_replace_false_cycle_witness",
     "C13_constructor_zombie_witness",
+    "C13_replace_ancestor_witness",
+    "C13_replace_workflow_witness",
 ]
 RULE = (
     "seeded random histories (4-28 ops) over 2-5 composites (strict/non-strict workflows, macros, a macro "
     "class with a label-like attribute) and 2-6 leaf nodes, nesting up to 4 levels, through every entry point "
     "(constructor parent=, add_child with/without label and strict_naming, attribute and item assignment, "
     "parent assignment to a composite / None / a non-composite, remove_child by node and by label, "
-    "replace_child, starting_nodes); half of the histories avoid the triggers of the known findings; plus the "
-    "exhaustive histories of length <= 2 (quick) / <= 3 (thorough) over a 41-operation alphabet on 2 composites "
+    "replace_child by node and by label with a leaf, a macro, an ancestor, the composite itself or a workflow as "
+    "replacement, starting_nodes); half of the histories avoid the triggers of the known findings; plus the "
+    "exhaustive histories of length <= 2 (quick) / <= 3 (thorough) over a 44-operation alphabet on 2 composites "
     "+ 3 nodes; non-trivial = at least 3 operations changed the ownership snapshot; distinct by canonical case"
 )
 TRUSTED = [
     "model Tree.addChildCore/setParent/removeListed transcribe LexicalParent.add_child, Lexical._set_parent, "
     "Composite.remove_child/replace_child/__setattr__ and Workflow.parent by hand, including the state left "
     "behind by every raise; validated on the explored histories only",
-    "the variant flags (Cfg) of the model are set from six micro-probes of the implementation (which of the "
-    "proposed repairs are present); the oracle never looks at them",
+    "the variant flags (Cfg) of the model are set from seven micro-probes of the implementation (which of the "
+    "repairs F1-F7 are present in the tree under test); the oracle never looks at them",
     "class attributes of a composite (`super().__dir__()`) are read by reflection and handed to the model as "
     "a static parameter; Python's recursion limit is modelled by a fuel of 64 levels",
 ]
@@ -62,7 +65,7 @@ UNIVERSE = sorted(set(NODE_LABELS + ARG_LABELS + ["UserInput", "_parent"]
                       + [l + str(i) for l in NODE_LABELS + ARG_LABELS for i in range(4)]))
 TRIGGER = {"new": "construct", "add": "add_child", "setattr": "add_child", "setitem": "add_child",
            "setparent": "parent-assign", "remove": "remove_child", "removelbl": "remove_child",
-           "replace": "replace_child", "setstart": "set-starting", "raw": "raw"}
+           "replace": "replace_child", "replacelbl": "replace_child", "setstart": "set-starting", "raw": "raw"}
 
 
 # ----------------------------------------------------------------------------- generation
@@ -179,17 +182,47 @@ def _random_case(rng, tier):
                 own[c] = None
         elif r < 0.88:
             p = rng.choice(cs)
-            kids = [i for i in alive if own.get(i) == p and world[i]["kind"] in ("leaf", "inner")]
-            fresh = [i for i in unborn if world[i]["kind"] == "leaf"]
-            if kids and fresh:
-                old, new = rng.choice(kids), rng.choice(fresh)
+            kids = [i for i in alive if own.get(i) == p]
+            fresh = [i for i in unborn if world[i]["kind"] != "wf"]
+            if not kids:
+                continue
+            old = rng.choice(kids)
+            q = rng.random()
+            if fresh and q < 0.45:
+                # the ordinary use: a fresh orphan (leaf or macro) takes the place
+                new = rng.choice(fresh)
                 label = rng.choice(NODE_LABELS)
                 ops.append(["new", new, label, None])
                 born(new, label, None)
+                accepted = True
+            else:
+                accepted = False
+                anc, x = [p], own.get(p)
+                while x is not None and x not in anc:
+                    anc.append(x)
+                    x = own.get(x)
+                wfs = [i for i in alive if world[i]["kind"] == "wf"]
+                orphans = [i for i in alive if own.get(i) is None and i not in anc and world[i]["kind"] != "wf"]
+                if avoid:
+                    # not the triggers of KF-C13-9: an ancestor (or the composite itself), a workflow
+                    pool = orphans or [i for i in alive if own.get(i) is not None]
+                    accepted = bool(orphans)
+                elif q < 0.65:
+                    pool = anc
+                elif q < 0.8 and wfs:
+                    pool = wfs
+                elif q < 0.9 and orphans:
+                    pool, accepted = orphans, True
+                else:
+                    pool = alive
+                new = rng.choice(pool)
+            if rng.random() < 0.3:
+                ops.append(["replacelbl", p, lab.get(old, "a") if rng.random() < 0.85 else pick_label(), new])
+            else:
                 ops.append(["replace", p, old, new])
+            if accepted and own.get(new) is None:
                 own[new], own[old] = p, None
-            elif kids and rng.random() < 0.5:
-                ops.append(["replace", p, rng.choice(kids), rng.choice(alive)])
+                lab[new], lab[old] = lab.get(old, "a"), lab.get(new, "a")
         else:
             p = rng.choice(cs)
             kids = [i for i in alive if own.get(i) == p]
@@ -222,6 +255,13 @@ def _ex_alphabet():
             al.append(["setparent", c, np])
     al.append(["setparent", 0, 1])
     al.append(["setstart", 0, [3]])
+    # replacement by a leaf, by an orphan macro, by the composite itself / an ancestor, by a workflow, by label
+    al.append(["replace", 0, 3, 4])
+    al.append(["replace", 1, 3, 4])
+    al.append(["replace", 0, 3, 1])
+    al.append(["replace", 1, 3, 1])
+    al.append(["replace", 1, 3, 0])
+    al.append(["replacelbl", 1, "a", 0])
     return al
 
 
@@ -245,6 +285,7 @@ def gen_cases(rng, tier):
                 ["add", n - 1, 0, None, None], ["remove", n + 3, 0], ["setparent", n + 5, 0],
                 ["raw", "add 0"], ["raw", "new 1 a -"], ["raw", "setparent x y"], ["raw", "add 0 1 - 2"],
                 ["raw", "frobnicate 1 2"], ["replace", 0, 0, 0], ["setstart", n - 1, [0]],
+                ["raw", "replacelbl 0 a 1"], ["raw", "cfg 1 1"], ["replacelbl", n + 2, "a", 0],
             ])
             ops.insert(k, bad)
         yield c
@@ -278,6 +319,20 @@ def corpus():
     # KF-C13-10: a macro with an inner child labelled like the root workflow cannot be constructed inside it,
     # and the workflow keeps listing the half-built macro
     yield {"world": wm, "ops": [["new", 0, "u", None], ["new", 1, "m", 0]]}
+    # KF-C13-9: the replacement is an ancestor of the composite / the composite itself: CyclicPathError after the
+    # old child is gone and the labels are swapped
+    wmm1 = _mk_world([("wf", True), ("macro", True), ("macro", True)], 1)  # 0 w, 1 m, 2 m', 3 u1, 4 u2, 5 leaf
+    yield {"world": wmm1, "ops": [["new", 1, "r", None], ["new", 2, "p", 1], ["new", 5, "a", 2],
+                                  ["replace", 2, 5, 1]]}
+    yield {"world": wmm1, "ops": [["new", 1, "r", None], ["new", 5, "a", 1], ["replace", 1, 5, 1]]}
+    yield {"world": wmm1, "ops": [["new", 0, "w", None], ["new", 1, "m", 0], ["new", 5, "a", 1],
+                                  ["replacelbl", 1, "a", 0]]}
+    # KF-C13-9b: the replacement is a workflow: ParentMostError after the old child is gone
+    yield {"world": w2, "ops": base + [["add", 0, 2, None, None], ["replace", 0, 2, 1]]}
+    # replacement by an orphan macro, by label, of a starting node: accepted
+    yield {"world": wmm1, "ops": [["new", 0, "w", None], ["new", 5, "a", 0], ["setstart", 0, [5]],
+                                  ["new", 1, "m", None], ["replacelbl", 0, "a", 1], ["replacelbl", 0, "zz", 5],
+                                  ["replace", 0, 1, 5], ["replace", 0, 5, 5], ["replace", 0, 5, 3]]}
     # a healthy history through every entry point, 4 levels deep
     big = _mk_world([("wf", True), ("macro", False), ("macroA", False)], 4)  # 0 w,1 m,2 ma,3 u1,4 u2,5..8
     yield {"world": big, "ops": [
@@ -331,7 +386,7 @@ def _reserved():
 
 
 def _variant():
-    """which of the proposed repairs the implementation under test contains (six micro-probes)"""
+    """which of the repairs the implementation under test contains (seven micro-probes)"""
     if "variant" in _CACHE:
         return _CACHE["variant"]
 
@@ -376,8 +431,27 @@ def _variant():
     b = mk("leaf", "a")
     e = quiet(lambda: setattr(b, "parent", wn))
     f6 = e is None and b.label == "a0"
-    _CACHE["variant"] = [int(bool(x)) for x in (f1, f2, f3, f4, f5, f6)]
+    # F7 replace_child validates the ownership side up front (replacement = a workflow / an ancestor)
+    w, w2, a = mk("wf", "w"), mk("wf", "w2"), mk("leaf", "a")
+    w.add_child(a)
+    quiet(lambda: w.replace_child(a, w2))
+    r, m2, b = mk("macro", "r"), mk("macro", "p"), mk("leaf", "b")
+    r.add_child(m2)
+    m2.add_child(b)
+    quiet(lambda: m2.replace_child(b, r))
+    f7 = (any(v is a for v in w.children.values()) and a.label == "a"
+          and any(v is b for v in m2.children.values()) and b.label == "b")
+    _CACHE["variant"] = [int(bool(x)) for x in (f1, f2, f3, f4, f5, f6, f7)]
     return _CACHE["variant"]
+
+
+def _value_linked(parent, child):
+    """does `replace_child` have value links between the composite's IO and this child to re-forge?"""
+    try:
+        return (any(ch.value_receiver in parent.outputs for ch in child.outputs)
+                or any(ch.value_receiver in child.inputs for ch in parent.inputs))
+    except Exception:  # noqa: BLE001
+        return True
 
 
 def _exc_name(e):
@@ -514,13 +588,19 @@ def run_impl(case):
                     res = "skip"
                 else:
                     objs[p].remove_child(label)
-            elif kind == "replace":
+            elif kind in ("replace", "replacelbl"):
                 p, old, new = op[1:4]
-                leafy = lambda i: i in objs and world[i]["kind"] in ("leaf", "inner")  # noqa: E731
-                if not comp(p) or not leafy(old) or not leafy(new) or old == new:
+                if not comp(p) or new not in objs or (kind == "replace" and old not in objs):
                     res = "skip"
                 else:
-                    objs[p].replace_child(objs[old], objs[new])
+                    target = objs[old] if kind == "replace" else objs[p].children.get(old)
+                    if target is not None and _value_linked(objs[p], target) and world[new]["kind"] not in (
+                            "leaf", "inner"):
+                        # the IO side (C14): a child that feeds the macro's own IO needs a replacement with
+                        # the same channels
+                        res = "skip"
+                    else:
+                        objs[p].replace_child(objs[old] if kind == "replace" else old, objs[new])
             elif kind == "setstart":
                 p, ids = op[1], op[2]
                 if not comp(p) or any(i not in objs for i in ids):
@@ -542,6 +622,9 @@ def run_impl(case):
     stats = {f"op:{k}": kinds.count(k) for k in set(kinds)}
     for s in states:
         stats[f"res:{s['res']}"] = stats.get(f"res:{s['res']}", 0) + 1
+        if s["res"] not in ("skip", "bad-op"):
+            key = f"{s['op'][0]}:{'accepted' if s['res'] == 'ok' else 'rejected'}"
+            stats[key] = stats.get(key, 0) + 1
     depth = 0
     par = {i: p for i, _l, p, _ok in prev["nodes"]}
     for i in par:
@@ -574,7 +657,7 @@ def _opt(x):
 
 def _resync(world, op, st, prev):
     """replace_child failing on the IO side (a workflow is listed as a child after KF-C13-6): not modelled"""
-    if op[0] != "replace" or st is None or st["res"] in ("ok", "ValueError", "KeyError", "skip"):
+    if op[0] not in ("replace", "replacelbl") or st is None or st["res"] in ("ok", "ValueError", "KeyError", "skip"):
         return False
     listed = {v for _i, ch, _s, _c in prev["comps"] for _k, v in ch}
     return any(isinstance(v, int) and world[v]["kind"] == "wf" for v in listed)
@@ -592,7 +675,7 @@ def _walk(case, impl):
 
 def model_input(case, impl=None):
     world = case["world"]
-    variant = impl["variant"] if impl else [0] * 6
+    variant = impl["variant"] if impl else [0] * 7
     reserved = impl["reserved"] if impl else {k: [] for k in COMPOSITE}
     lines = ["cfg " + " ".join(map(str, variant))]
     for i, w in enumerate(world):
@@ -638,6 +721,8 @@ def model_input(case, impl=None):
             lines.append(f"removelbl {op[1]} {_lbl(op[2])}")
         elif k == "replace":
             lines.append(f"replace {op[1]} {op[2]} {op[3]}")
+        elif k == "replacelbl":
+            lines.append(f"replacelbl {op[1]} {_lbl(op[2])} {op[3]}")
         elif k == "setstart":
             lines.append(f"setstart {op[1]} " + " ".join(map(str, op[2])))
     return lines
@@ -674,6 +759,17 @@ def _facts(world, op, prev, res):
         c, label, p = op[1], op[2], op[3]
     elif kind == "remove":
         p, c = op[1], op[2]
+    elif kind in ("replace", "replacelbl"):
+        p, new = op[1], op[3]
+        if isinstance(new, int) and 0 <= new < len(world):
+            f["replacement_kind"] = "wf" if world[new]["kind"] == "wf" else (
+                "macro" if world[new]["kind"] in COMPOSITE else "leaf")
+            seen, x = set(), p
+            while x is not None and x not in seen and x != "?":
+                seen.add(x)
+                x = par.get(x)
+            f["replacement_is_self_or_ancestor"] = new in seen
+            f["replacement_owned"] = par.get(new) is not None
     if c is not None and 0 <= c < len(world):
         f["child_kind"] = "wf" if world[c]["kind"] == "wf" else ("macro" if world[c]["kind"] in COMPOSITE else "leaf")
         f["owned_before"] = par.get(c) is not None
@@ -709,8 +805,10 @@ def _delta(prev, snap):
     return "+".join(d)
 
 
-def _check_state(world, snap):
-    """the invariants of the property on one observed state: [(clause, detail)]"""
+def _check_state(world, snap, excused=None):
+    """the invariants of the property on one observed state: [(clause, detail)]; `excused[p]` are nodes that
+    the user (not the library) put into `p.starting_nodes` although they are not children of `p`"""
+    excused = excused or {}
     bad = []
     nodes = {i: (l, p, ok) for i, l, p, ok in snap["nodes"]}
     comps = {i: (ch, st, cl) for i, ch, st, cl in snap["comps"]}
@@ -760,7 +858,7 @@ def _check_state(world, snap):
     for p, (ch, st, _cl) in comps.items():
         kids = {v for _k, v in ch}
         for s in st:
-            if s not in kids:
+            if s not in kids and s not in excused.get(p, ()):
                 bad.append(("starting", f"starting node {s} of composite {p} is not one of its children {sorted(map(str, kids))}"))
     return bad
 
@@ -768,6 +866,7 @@ def _check_state(world, snap):
 def oracle(case, r):
     world = case["world"]
     prev = {"nodes": [], "comps": []}
+    excused: dict = {}
     for k, st in enumerate(r["states"]):
         op, res, snap = st["op"], st["res"], st["snap"]
         if res in ("skip", "bad-op"):
@@ -776,17 +875,19 @@ def oracle(case, r):
             continue
         facts = _facts(world, op, prev, res)
         if op[0] == "setstart" and res == "ok":
+            # a non-child put there by the user (not by the library) is outside the property: that entry is not
+            # held against the library for as long as it stays in the list
             kids = {v for i, ch, _s, _c in snap["comps"] if i == op[1] for _k, v in ch}
-            if any(i not in kids for i in op[2]):
-                # the user (not the library) put a non-child there: outside the property
-                prev = snap
-                return []
+            excused[op[1]] = {i for i in op[2] if i not in kids}
+        for i, _ch, stt, _c in snap["comps"]:
+            if i in excused:
+                excused[i] &= set(stt)
         if res != "ok" and snap != prev:
             facts["delta"] = _delta(prev, snap)
             return [_fail("rejected-changed", k, op,
                           f"raised {res} but changed {facts['delta']}: before {_fmt('', prev)} after {_fmt('', snap)}",
                           facts)]
-        bad = _check_state(world, snap)
+        bad = _check_state(world, snap, excused)
         if bad:
             clause, detail = bad[0]
             return [_fail(clause, k, op, detail + " :: " + _fmt(res, snap), facts)]
